@@ -84,7 +84,8 @@ CHECKS = {
         pkg="./csched", level="exploration",
         runs=[
             dict(name="sched", run="^TestC03Shutdown$", checks=(20000, 120000), shards=(4, 16)),
-            dict(name="stress", run="^TestC03Stress$", checks=(800, 6000), shards=(2, 4)),
+            dict(name="stress", run="^TestC03Stress$", checks=(1200, 8000), shards=(4, 8)),
+            dict(name="servefail", run="^TestC03ServeFailure$", checks=(300, 3000), shards=(1, 4)),
             dict(name="regress", run="^TestRegress", shards=(1, 1)),
         ],
     ),
